@@ -39,6 +39,7 @@ QAL1 = 0x03A0            # QueryActualLevel(short 1)
 SCN1 = 0x0341            # SetScene(short 1, 1)  send twice
 EDT6 = 0xC106
 FFT2 = 0x05FD            # QueryFastFadeTime(short 2) under dt 6 / QueryExtendedVersionNumber... under dt 0
+SDC2 = 0x05E3            # led.SelectDimmingCurve(short 2) under dt 6: device-type specific AND send twice
 UNK16 = 0x03E5           # opcode 0xE5 under dt 0: unknown
 QDS24 = 0x07FE30         # QueryDeviceStatus(short 3)
 IDENT24 = 0x07FE00       # IdentifyDevice(short 3) send twice
@@ -58,6 +59,9 @@ ALPHABET = {
     "edt+ext": [("F", 16, EDT6), ("F", 16, FFT2), ("B", 7)],
     "edt+plain": [("F", 16, EDT6), ("F", 16, OFF1)],
     "ext-without-edt": [("F", 16, FFT2)],
+    "edt+cfg-twice": [("F", 16, EDT6), ("F", 16, SDC2), ("F", 16, SDC2)],
+    "edt+cfg-once": [("F", 16, EDT6), ("F", 16, SDC2)],
+    "edt+cfg+backward": [("F", 16, EDT6), ("F", 16, SDC2), ("B", 3)],
     "unknown16": [("F", 16, UNK16)],
     "cmd24+answer": [("F", 24, QDS24), ("B", 0x80)],
     "config24-twice": [("F", 24, IDENT24), ("F", 24, IDENT24)],
